@@ -93,8 +93,28 @@ class C01(Property):
         return md, voi
 
     def run_impl(self, case):
+        res = self._run_once(case, case['cfg'])
+        if res.get('error') == 'AnalysisError' and 'SCIPY' in res.get('msg', ''):
+            # ScipyKrylov reported non-convergence.  Do not let that hide wrong derivatives: solve
+            # again with un-restarted GMRES and the error flag off; if the values are then wrong
+            # although the same solver is right with relevance pruning disabled, the totals are
+            # wrong for a reason other than convergence.
+            import openmdao.utils.relevance as R
+            cfg2 = dict(case['cfg'], krylov_err=False, krylov_restart=200)
+            r2 = self._run_once(case, cfg2)
+            if 'error' not in r2:
+                saved = R._no_relevance
+                R._no_relevance = True
+                try:
+                    r3 = self._run_once(case, cfg2)
+                finally:
+                    R._no_relevance = saved
+                if 'error' not in r3:
+                    res = dict(r2, krylov_reported_failure=True, J_no_relevance=r3['J'])
+        return res
+
+    def _run_once(self, case, cfg):
         md, voi = self._md(case)
-        cfg = case['cfg']
         res = {}
         try:
             with warnings.catch_warnings():
@@ -183,6 +203,9 @@ class C01(Property):
             return {'what': 'acyclic model: outputs after run_model differ from the exact state'}
         exp = self._expected(case, gm.exact_totals_linsolve(md, voi))
         d = self._diff(impl['J'], exp, self._tol(case))
+        if d is not None and impl.get('krylov_reported_failure') and \
+                self._diff(impl['J_no_relevance'], exp, self._tol(case)) is not None:
+            return None     # the solver cannot solve this system either way: premise false
         if d is not None:
             return {'what': 'compute_totals differs from the exact derivative', 'detail': d,
                     'expected': [[float(x) for x in r] for r in exp], 'got': impl['J']}
